@@ -154,9 +154,10 @@ def check_scan_loop(ctx, T):
     check_normalisation(ctx, f, textvar, outer, itdef)
     # (b) inner loop
     inner = [s for s in outer.body if isinstance(s, ast.For)]
-    ctx.need(len(inner) == 1 and len(outer.body) == 1,
-             f'{oloc}: body of the scan loop is no longer a single `for ... in self._SQL_REGEX: ... else:` statement')
+    ctx.need(len(inner) == 1 and outer.body[0] is inner[0],
+             f'{oloc}: body of the scan loop does not start with a single `for ... in self._SQL_REGEX:` rule loop')
     inner = inner[0]
+    rest = outer.body[1:]
     iloc = f'{f.mod.relpath}:{inner.lineno}'
     ok_b = is_attr(inner.iter, '_SQL_REGEX', 'self') and isinstance(inner.target, ast.Tuple) and len(inner.target.elts) == 2 \
         and all(isinstance(e, ast.Name) for e in inner.target.elts)
@@ -165,6 +166,8 @@ def check_scan_loop(ctx, T):
     if not ok_b:
         return
     mfun, actvar = (e.id for e in inner.target.elts)
+    if rest:
+        return check_search_form(ctx, f, outer, inner, rest, textvar, posvar, charvar, itname, mfun, actvar, loc0)
     # (d) for-else
     els = inner.orelse
     ok_d = len(els) == 1 and isinstance(els[0], ast.Expr) and isinstance(els[0].value, ast.Yield) \
@@ -211,45 +214,135 @@ def check_scan_loop(ctx, T):
             else:
                 ctx.ob('R1.4', key, ploc, 'path is classified by the truth of m', None, 'path neither tests m nor is dominated by such a test')
             continue
-        # matching path
-        # which action kinds reach here?
-        kinds = action_kinds(ctx, f, facts, actvar)
-        if kinds == set():
-            # residual path (action of neither kind): must not exist in the table (R1.3) -- it consumes without yield
-            ok = p.exit == 'break'
-            ctx.ob('R1.4', key, ploc, 'residual path (action of neither kind, excluded by R1.3) still advances and breaks', ok,
-                   f'exit {p.exit}')
-            continue
-        ok_y = len(ys) == 1 and not other_y
-        detail = ''
-        if ok_y:
-            yv = ys[0].value.value
-            ok_y, detail = yield_ok(ctx, f, yv, mvar, actvar, kinds)
-        else:
-            detail = f'{len(ys)} yields on a matching path (expected exactly one)'
-        ctx.ob('R1.4', key + ':yield', f'{f.mod.relpath}:{ys[0].lineno if ys else inner.lineno}',
-               'matching path yields exactly once (action, m.group()) / is_keyword(m.group())', ok_y, detail)
-        # consume after the yield, then break
-        st = p.stmts()
-        cons = [s for s in st if isinstance(s, ast.Expr) and isinstance(s.value, ast.Call) and is_name(s.value.func, 'consume')]
-        ok_c, detail = False, 'no consume(...) call on the matching path: the scan does not skip the matched characters'
-        if len(cons) == 1:
-            c = cons[0].value
-            want = {f'{mvar}.end()': 1, posvar: -1, '': -1}
-            got = lin(c.args[1]) if len(c.args) == 2 else None
-            ok_c = is_name(c.args[0], itname) and got == want
-            detail = f'call is `{src(c)}`; skip count must equal {mvar}.end() - {posvar} - 1 on iterator {itname}'
-            if ok_c and ys:
-                ok_c = st.index(cons[0]) > st.index(ys[0])
-                detail = 'consume happens before the yield'
-        elif len(cons) > 1:
-            detail = 'more than one consume() on a matching path'
-        ctx.ob('R1.4', key + ':consume', f'{f.mod.relpath}:{cons[0].lineno if cons else inner.lineno}',
-               f'matching path calls consume({itname}, {mvar}.end() - {posvar} - 1)', ok_c, detail)
-        ctx.ob('R1.4', key + ':break', ploc, 'matching path leaves the rule loop with break (first matching rule wins)',
-               p.exit == 'break', f'path exits with {p.exit}')
+        check_matching_path(ctx, f, p.stmts(), facts, p.exit, ('break',), key, ploc, inner, mvar, actvar, posvar, itname)
     ctx.info['scan_loop_paths'] = npaths
     # consume is utils.consume
+    imp = f.mod.imports.get('consume')
+    ctx.ob('R1.4', 'consume-is-utils.consume', loc0, 'name `consume` in lexer.py is sqlparse.utils.consume',
+           imp == ('object', 'sqlparse.utils', 'consume'), f'consume resolves to {imp}')
+
+
+def check_matching_path(ctx, f, st, facts, exit_, exits_ok, key, ploc, inner, mvar, actvar, posvar, itname):
+    ys = [s for s in st if isinstance(s, ast.Expr) and isinstance(s.value, (ast.Yield, ast.YieldFrom))]
+    other_y = [s for s in st if not isinstance(s, ast.Expr) and yields_in(s)]
+    # which action kinds reach here?
+    kinds = action_kinds(ctx, f, facts, actvar)
+    if kinds == set():
+        # residual path (action of neither kind): must not exist in the table (R1.3) -- it consumes without yield
+        ok = exit_ in exits_ok
+        ctx.ob('R1.4', key, ploc, 'residual path (action of neither kind, excluded by R1.3) still advances and leaves the rule loop', ok,
+               f'exit {exit_}')
+        return
+    ok_y = len(ys) == 1 and not other_y
+    detail = ''
+    if ok_y:
+        yv = ys[0].value.value
+        ok_y, detail = yield_ok(ctx, f, yv, mvar, actvar, kinds)
+    else:
+        detail = f'{len(ys)} yields on a matching path (expected exactly one)'
+    ctx.ob('R1.4', key + ':yield', f'{f.mod.relpath}:{ys[0].lineno if ys else inner.lineno}',
+           'matching path yields exactly once (action, m.group()) / is_keyword(m.group())', ok_y, detail)
+    # consume after the yield, then break
+    cons = [s for s in st if isinstance(s, ast.Expr) and isinstance(s.value, ast.Call) and is_name(s.value.func, 'consume')]
+    ok_c, detail = False, 'no consume(...) call on the matching path: the scan does not skip the matched characters'
+    if len(cons) == 1:
+        c = cons[0].value
+        want = {f'{mvar}.end()': 1, posvar: -1, '': -1}
+        got = lin(c.args[1]) if len(c.args) == 2 else None
+        ok_c = is_name(c.args[0], itname) and got == want
+        detail = f'call is `{src(c)}`; skip count must equal {mvar}.end() - {posvar} - 1 on iterator {itname}'
+        if ok_c and ys:
+            ok_c = st.index(cons[0]) > st.index(ys[0])
+            detail = 'consume happens before the yield'
+    elif len(cons) > 1:
+        detail = 'more than one consume() on a matching path'
+    ctx.ob('R1.4', key + ':consume', f'{f.mod.relpath}:{cons[0].lineno if cons else inner.lineno}',
+           f'matching path calls consume({itname}, {mvar}.end() - {posvar} - 1)', ok_c, detail)
+    ctx.ob('R1.4', key + ':break', ploc, 'matching path leaves the rule loop (first matching rule wins) and goes on to the next position',
+           exit_ in exits_ok, f'path exits with {exit_}')
+
+
+def m_truth(fact, mvar):
+    """truth of a path fact about the match variable when m is a match object: True/False, None = unrelated"""
+    e, pol = fact
+    t = e.replace(' ', '')
+    if t == mvar:
+        v = True
+    elif t in (f'{mvar}isNone', f'{mvar}==None', f'not{mvar}'):
+        v = False
+    elif t in (f'{mvar}isnotNone', f'{mvar}!=None'):
+        v = True
+    else:
+        return None
+    return v if pol else not v
+
+
+def check_search_form(ctx, f, outer, inner, rest, textvar, posvar, charvar, itname, mfun, actvar, loc0):
+    """The rule loop only searches (`m = matcher(text, pos)`, leave at the first match, else-clause / fall-through means no
+    match) and the statements after it emit the token.  The iteration paths are the compositions search-outcome ; tail."""
+    iloc = f'{f.mod.relpath}:{inner.lineno}'
+    mvar = None
+    for s in inner.body:
+        if isinstance(s, ast.Assign) and len(s.targets) == 1 and is_name(s.targets[0]) and isinstance(s.value, ast.Call) \
+                and is_name(s.value.func, mfun):
+            mvar = s.targets[0].id
+            call = s.value
+            ok_m = len(call.args) == 2 and is_name(call.args[0], textvar) and is_name(call.args[1], posvar) and not call.keywords
+            ctx.ob('R1.4', 'b:match-at-current-position', f'{f.mod.relpath}:{s.lineno}',
+                   f'{mvar} = matcher({textvar}, {posvar}): match attempted on the text at the current position', ok_m, f'call is `{src(call)}`')
+    ctx.need(mvar is not None, f'{iloc}: no `m = rexmatch(text, pos)` assignment in the rule loop')
+    npaths = 0
+    for p in enum_paths(inner.body):
+        facts = p.facts()
+        st = p.stmts()
+        npaths += 1
+        desc = ' ∧ '.join(f'{"" if pol else "not "}{e}' for e, pol in [a for a in facts if a[0] != '|'])
+        effects = [s for s in st if yields_in(s) or (isinstance(s, ast.Expr) and isinstance(s.value, ast.Call))]
+        stores = [s for s in st if isinstance(s, (ast.Assign, ast.AugAssign)) and not (isinstance(s, ast.Assign) and isinstance(s.value, ast.Call)
+                                                                                    and is_name(s.value.func, mfun))]
+        if fact_in((mvar, True), facts):
+            ok = p.exit == 'break' and not effects and not stores
+            ctx.ob('R1.4', f'search:match[{desc}]', iloc, 'the search leaves the rule loop at the first match with (m, action) untouched', ok,
+                   f'exit {p.exit}; effects {[src(s) for s in effects]}; stores {[src(s) for s in stores]}')
+        elif fact_in((mvar, False), facts):
+            ok = p.exit in ('fall', 'continue') and not effects and not stores
+            ctx.ob('R1.4', f'search:nomatch[{desc}]', iloc, 'a rule that does not match is skipped without effect', ok,
+                   f'exit {p.exit}; effects {[src(s) for s in effects]}')
+        else:
+            ctx.ob('R1.4', f'search:path[{desc}]', iloc, 'path is classified by the truth of m', None, 'path neither tests m nor is dominated by such a test')
+    # the else clause may only record "no match"
+    els = inner.orelse
+    none_assign = all(isinstance(s, ast.Assign) and all(isinstance(v, ast.Constant) and v.value is None
+                                                       for v in (s.value.elts if isinstance(s.value, ast.Tuple) else [s.value])) for s in els)
+    ctx.ob('R1.4', 'search:else', iloc, 'the else clause of the search only records that nothing matched (m = None)', none_assign,
+           f'else-clause is `{"; ".join(src(s) for s in els)}`')
+    for p in enum_paths(rest):
+        facts = [a for a in p.facts() if a[0] != '|']
+        truths = [m_truth(a, mvar) for a in facts]
+        desc = ' ∧ '.join(f'{"" if pol else "not "}{e}' for e, pol in facts)
+        st = p.stmts()
+        if all(t is None for t in truths):
+            ctx.ob('R1.4', f'tail:path[{desc}]', iloc, 'every tail path is classified by a test on the search result', None,
+                   'the path does not test m: it runs for matches and for unrecognised characters alike')
+            continue
+        npaths += 1
+        if all(t in (True, None) for t in truths):
+            check_matching_path(ctx, f, st, p.facts(), p.exit, ('fall', 'continue'), f'c:path[{desc}]', iloc, inner, mvar, actvar, posvar, itname)
+        elif all(t in (False, None) for t in truths):
+            ys = [s for s in st if isinstance(s, ast.Expr) and isinstance(s.value, ast.Yield)]
+            cons = [s for s in st if isinstance(s, ast.Expr) and isinstance(s.value, ast.Call) and is_name(s.value.func, 'consume')]
+            ok_d = len(ys) == 1 and not cons and isinstance(ys[0].value.value, ast.Tuple) and len(ys[0].value.value.elts) == 2 \
+                and is_name(ys[0].value.value.elts[1], charvar) and p.exit in ('fall', 'continue')
+            if ok_d:
+                try:
+                    tt = ctx.folder.eval(ys[0].value.value.elts[0], f.mod)
+                except NotConst:
+                    tt = None
+                ok_d = tt == TT(('Error',))
+            ctx.ob('R1.4', 'd:for-else-yields-Error-char', iloc, 'when no rule matched the iteration yields exactly (tokens.Error, char)', ok_d,
+                   f'no-match path is `{"; ".join(src(s)[:40] for s in st)}`: an unrecognised character is dropped, duplicated or mistyped')
+        # mixed truths: infeasible path
+    ctx.info['scan_loop_paths'] = npaths
     imp = f.mod.imports.get('consume')
     ctx.ob('R1.4', 'consume-is-utils.consume', loc0, 'name `consume` in lexer.py is sqlparse.utils.consume',
            imp == ('object', 'sqlparse.utils', 'consume'), f'consume resolves to {imp}')
